@@ -45,7 +45,7 @@ type storeBehaviour struct {
 	Cap    int       `json:"cap"`
 	MaxKB  int       `json:"maxkb"`
 	Names  []string  `json:"names"`
-	Events bool      `json:"events"` // record after-events (C16); deliveries then go through message.StoreManager
+	Events bool      `json:"events"`  // record after-events (C16); deliveries then go through message.StoreManager
 	HoldMS int       `json:"hold_ms"` // every listener invocation takes this long (exposes overlapping dispatch)
 	Ops    []storeOp `json:"ops"`
 }
@@ -165,6 +165,22 @@ func mkMeta(rng *rand.Rand, class int, mb string) event.MessageMetadata {
 }
 
 func runStoreBehaviour(w *tr.Writer, b storeBehaviour, seed int64, scratch string) {
+	runStoreBehaviourHooked(w, b, seed, scratch, "", nil, nil)
+}
+
+func mkMetaFixed(mb string) event.MessageMetadata {
+	return event.MessageMetadata{
+		Mailbox: mb,
+		From:    &mail.Address{Name: "Probe", Address: "probe@example.org"},
+		To:      []*mail.Address{{Address: "after@example.com"}},
+		Date:    baseTime.Add(42 * time.Hour),
+		Subject: "after the crash",
+	}
+}
+
+// runStoreBehaviourHooked executes a store behaviour; before/after are called around every operation
+// (crash driver: arms the file-store hook for the target operation); fixedDir pins the store directory.
+func runStoreBehaviourHooked(w *tr.Writer, b storeBehaviour, seed int64, scratch string, fixedDir string, before, after func(i int)) {
 	rng := rand.New(rand.NewSource(seed))
 	host := extension.NewHost()
 	rec := &evRec{hold: time.Duration(b.HoldMS) * time.Millisecond}
@@ -173,7 +189,9 @@ func runStoreBehaviour(w *tr.Writer, b storeBehaviour, seed int64, scratch strin
 		host.Events.AfterMessageStored.AddListener("verif", func(m event.MessageMetadata) { rec.invoke("stored", m) })
 	}
 	dir := filepath.Join(scratch, "store-"+b.ID)
-	if b.Store == "file" {
+	if fixedDir != "" {
+		dir = fixedDir
+	} else if b.Store == "file" {
 		_ = os.MkdirAll(dir, 0o770)
 		defer os.RemoveAll(dir)
 	}
@@ -205,6 +223,9 @@ func runStoreBehaviour(w *tr.Writer, b storeBehaviour, seed int64, scratch strin
 	}
 	for i, op := range b.Ops {
 		ev := tr.Ev{"a": op.Op, "t": b.ID, "i": i}
+		if before != nil {
+			before(i)
+		}
 		name := ""
 		if op.Mb >= 0 && op.Mb < len(b.Names) {
 			name = b.Names[op.Mb]
@@ -364,6 +385,9 @@ func runStoreBehaviour(w *tr.Writer, b storeBehaviour, seed int64, scratch strin
 			}
 		default:
 			ev["r"] = "harness-error: unknown op"
+		}
+		if after != nil {
+			after(i)
 		}
 		snapInto(ev)
 		w.Emit(ev)
